@@ -489,18 +489,19 @@ end Expect
   definitions to the model the 56 theorems above are about.
 
   PROVED for all arguments: Null, Bool, Integer, String (= encodeString),
-  Attribute, Array and Object .MarshalJSON (the loops, the `first` flag, the
+  Float.MarshalJSON (= floatHacks on every text that contains an `E`, hence
+  = marshalFloat on every strconv text), Attribute, Array and Object .MarshalJSON (the loops, the `first` flag, the
   null-member filter, the error propagation) = attrJoin / marshalL / marshalK;
   Object.Sort = sortL (the comparator is the bytewise order of the keys, which
   on UTF-8 is the code-point order `ltS`); the two condition-controlled loops
   never run out of fuel.
-  PARTIAL (`_partial`): `marshal_tie_partial` takes the statements about
-  encodeString and Float.MarshalJSON as hypotheses — they are proved here on
-  the ASCII table (`src_escape_table_is_readme`, all 128 one-byte strings) and
-  on examples (`src_float_examples`, `src_check_examples`), not for all
-  arguments.  Full statements, not proved:
+  PARTIAL (`_partial`): `marshal_tie_partial` takes the statement about
+  encodeString as a hypothesis — it is proved here on the ASCII table
+  (`src_escape_table_is_readme`, all 128 one-byte strings), not for all
+  arguments; checkEncoding / escapedUnit are proved on examples and on a small
+  exhaustive alphabet (`src_check_examples`, `src_checkEncoding_small`).
+  Full statements, not proved:
     ∀ s, obs (Src.encodeString (utf8s s)) = (C14n.encodeString s).map utf8s
-    ∀ n ds e, wfDigits ds → Src.Float_MarshalJSON (strconvE n ds e) = (utf8s (marshalFloat n ds e), none)
     ∀ raw, (Src.checkEncoding raw).isNone = C14n.checkEncoding raw
     ∀ b, Src.escapedUnit b = (C14n.escapedUnit b).elim (-1) Int.ofNat
 -/
@@ -548,13 +549,60 @@ theorem src_attribute (k : Str) (v : J)
         obtain ⟨h3, h4⟩ := obs_eq_some hv
         simp [h1, h3, obs, GoSem.id_pure, h2, h4, utf8s_append, utf8s_cons, utf8_ascii]
 
+/-! ### Float.MarshalJSON -/
+
+theorem src_float_text (t : Bytes) (hE : 69 ∈ t) : C14nSrc.Float_MarshalJSON t = (floatHacks t, none) := by
+  have hne : t ≠ [] := by intro h; subst h; simp at hE
+  unfold C14nSrc.Float_MarshalJSON floatHacks
+  simp only [Id.run, appendFloat_nil, show Int.toNat (0:Int) = 0 from rfl, show Int.toNat (2:Int) = 2 from rfl,
+    show Int.toNat (1 : Int) = 1 from rfl]
+  split <;> split
+  · rename_i h0 h2
+    rw [← ins_a t h0 h2]
+    have hEn := mem_insert_point t 2 hE
+    generalize List.take 2 t ++ ([46, 48] ++ List.drop 2 t) = num at hEn ⊢
+    float_rest num hEn
+  · rename_i h0 h2
+    rw [← ins_b t h0 h2]
+    float_rest t hE
+  · rename_i h0 h1
+    rw [← ins_c t hne h0 h1]
+    have hEn := mem_insert_point t 1 hE
+    generalize List.take 1 t ++ ([46, 48] ++ List.drop 1 t) = num at hEn ⊢
+    float_rest num hEn
+  · rename_i h0 h1
+    rw [← ins_d t h0 h1]
+    float_rest t hE
+
+theorem strconvE_has_E (n : Bool) (ds : List Nat) (e : Int) : 69 ∈ strconvE n ds e := by
+  unfold strconvE; simp
+
+/-- Float.MarshalJSON as it is now = the model, for every float (given by strconv's text) -/
+theorem src_float (n : Bool) (ds : List Nat) (e : Int) :
+    C14nSrc.Float_MarshalJSON (strconvE n ds e) = (marshalFloat n ds e, none) :=
+  src_float_text _ (strconvE_has_E n ds e)
+
+
+/-- the same with the result read as UTF-8 (the text is ASCII) -/
+theorem src_float_utf8 (n : Bool) (ds : List Nat) (e : Int) (hw : wfDigits ds = true) :
+    C14nSrc.Float_MarshalJSON (strconvE n ds e) = (utf8s (marshalFloat n ds e), none) := by
+  rw [src_float, marshalFloat_eq n ds e hw, utf8s_ascii _ (fltText_ascii n ds e hw)]
+
+/-- headline, rule 7, over the regenerated definition: what Float.MarshalJSON (as it is in the
+    repository now) makes of strconv's text is `[-]d.d+E[-]d+` -/
+theorem src_float_form (neg : Bool) (ds : List Nat) (e : Int) (hw : wfFloat ds e = true) :
+    C14nSrc.Float_MarshalJSON (strconvE neg ds e) = (fltText neg ds e, none) ∧
+    isFloatForm (fltText neg ds e) = true := by
+  have hd : wfDigits ds = true := by simp only [wfFloat, Bool.and_eq_true] at hw; exact hw.1
+  exact ⟨by rw [src_float, marshalFloat_eq neg ds e hd], isFloatForm_fltText neg ds e hw⟩
+
+example : wfFloat [1, 5] 0 = true := by decide
+
 /-! ### the recursion through the interface Canonicalable -/
 
 section tie
 variable (hES : ∀ s : Str, obs (C14nSrc.encodeString (utf8s s)) = (C14n.encodeString s).map utf8s)
-variable (hFl : ∀ (n : Bool) (ds : List Nat) (e : Int), wfDigits ds = true →
-    C14nSrc.Float_MarshalJSON (strconvE n ds e) = (utf8s (marshalFloat n ds e), none))
-include hES hFl
+include hES
 
 mutual
 theorem tieJ_partial : ∀ v : J, v.wf = true → obs (srcJ v) = (marshalJ v).map utf8s
@@ -562,7 +610,7 @@ theorem tieJ_partial : ∀ v : J, v.wf = true → obs (srcJ v) = (marshalJ v).ma
   | .atom (.bool b), _ => src_bool b
   | .atom (.int i), _ => src_integer i
   | .atom (.flt n ds e), hw => by
-    rw [srcJ, hFl n ds e (by simpa [J.wf, Atom.wf] using hw)]; rfl
+    rw [srcJ, src_float_utf8 n ds e (by simpa [J.wf, Atom.wf] using hw)]; rfl
   | .atom (.str s), _ => by rw [srcJ]; exact hES s
   | .arr xs, hw => by
     have hw' : JL.wf xs = true := by simpa [J.wf] using hw
@@ -603,10 +651,10 @@ end
 
 /-- PARTIAL (see the header of this namespace): Go's MarshalJSON on the value that stands for `v`,
     computed by the TRANSLATED methods at every node, returns the UTF-8 of the model's text, and
-    an error exactly where the model rejects — given the two statements about encodeString and
-    Float.MarshalJSON that are not proved for all arguments -/
+    an error exactly where the model rejects — given the statement about encodeString that is
+    not proved for all arguments -/
 theorem marshal_tie_partial (v : J) (hw : v.wf = true) : obs (srcJ v) = (marshalJ v).map utf8s :=
-  tieJ_partial hES hFl v hw
+  tieJ_partial hES v hw
 end tie
 
 /-! ### Object.Sort -/
